@@ -66,7 +66,9 @@ INCLUDES = {
     "C18": [("C11", ["C11.response-layout", "C11.username-flow"]), ("C01", ALL)] + WIRE,
     # the flush that reports a deferred error is C12's
     # ... Ok "exactly when the client quits": which command bytes mean Quit is the parser's byte table
-    "C19": [("C12", ALL), ("C02", ["C02.byte-table"])],
+    # ... an error "only when something failed": the reader must never hand the transport an empty buffer and take its Ok(0) for the
+    # end of the stream (C01.window-invariant, clauses d0/d/e)
+    "C19": [("C12", ALL), ("C02", ["C02.byte-table"]), ("C01", ["C01.window-invariant"])],
     # the parameter iterator unwraps the value parser's result (a known finding): every input the value parser refuses is a crash,
     # so the set it accepts is part of this property until that finding is repaired
     # ... and the parameter count the iterator slices by is the registry's, which must be the one announced (C10)
